@@ -17,7 +17,7 @@ BUDGET = {'quick': {'cases': 24000, 'seconds': 40}, 'thorough': {'cases': 400000
 
 
 def strategy(tier):
-    return gen.history(max_ops=14, kinds=gen.ADD_KINDS + ['add', 'add', 'missing_t'])
+    return gen.tiered(tier, max_ops=14, kinds=gen.ADD_KINDS + ['add', 'add', 'missing_t'])
 
 
 def exhaustive(tier):
